@@ -297,3 +297,45 @@ def byte_table(ctx, rule, body):
                 vals.add(val)
         table[v] = vals.pop() if len(vals) == 1 else None
     return table, rejects, [stores[0][0]]
+
+
+OUTER_ITEM = "some(Iterator::next(var:Enumerate<Zip<Split<char>, Chain<Split<char>, Repeat<&str>>>>))"
+INNER_ITEM = "some(Iterator::next(var:Enumerate<Split<char>>))"
+
+
+def range_reader(ctx, rule):
+    """C07.R5: the range flag of a token is bit k of its line's bitfield, k = index of the
+    segment within the line; lines of `mappings` and `rangeMappings` are zipped, the shorter
+    rangeMappings padded with "". """
+    body = ctx.body(DEC)
+    fn = body.path
+    aggs = token_aggs(body)
+    ctx.floor(rule, fn, "RawToken literals", len(aggs), 1)
+    for bi, si, a in aggs:
+        sh = q.shape(a.field("is_range"))
+        ok = sh == "Option::unwrap_or_default(Option::map(BitSlice::get(var:BitVec<u8>,%s.0),closure:decode_regular::{closure#0}))" % INNER_ITEM
+        ctx.check(ok, rule, fn, "is_range:bit-by-segment-index",
+                  "is_range is read with the non-panicking BitSlice::get at the segment's enumerate() index within its line (missing bits read as false)", ctx.site(body, bi, si), detail=sh)
+        dl = q.shape(a.field("dst_line"))
+        ctx.check(dl == "cast<u32>(%s.0)" % OUTER_ITEM, rule, fn, "dst_line:line-index", "the generated line is the enumerate() index of the ';'-separated piece", detail=dl)
+    it = [sh for l in body.var_names for sh, _, _ in q.def_shapes(body, l, {}) if sh.startswith("IntoIterator::into_iter(Iterator::enumerate(Iterator::zip(")]
+    want = ("IntoIterator::into_iter(Iterator::enumerate(Iterator::zip(str::split(Option::unwrap_or_default(arg1.mappings),59),"
+            "Iterator::chain(str::split(Option::unwrap_or_default(arg1.range_mappings),59),repeat::repeat('')))))")
+    ctx.check(it == [want], rule, fn, "zip-lines", "mappings and rangeMappings are split on ';' and zipped line by line, rangeMappings padded with empty strings", detail=str(it))
+    inner = [sh for l in body.var_names for sh, _, _ in q.def_shapes(body, l, {}) if sh.startswith("IntoIterator::into_iter(Iterator::enumerate(str::split(")]
+    ctx.check(inner == ["IntoIterator::into_iter(Iterator::enumerate(str::split(%s.1.0,44)))" % OUTER_ITEM], rule, fn, "split-segments",
+              "segments are the ','-separated pieces of the line, enumerated from 0", detail=str(inner))
+    calls = q.calls_to(body, "decoder::decode_rmi")
+    ok = len(calls) == 1 and q.shape(body.expr_of_call(calls[0][1])) == "decoder::decode_rmi(%s.1.1,var:BitVec<u8>)" % OUTER_ITEM
+    ctx.check(ok, rule, fn, "decode_rmi:per-line", "the bitfield of the zipped rangeMappings piece is decoded once per line")
+    if calls:
+        # the bit vector read for is_range is the one decode_rmi filled, and the decode precedes the segment loop
+        rmi = q.root_local(q.arg_expr(body, calls[0][1], 1))
+        for bi, si, a in aggs:
+            used = [x for x in a.field("is_range").walk() if isinstance(x, Var) and x.local == rmi]
+            ctx.check(bool(used), rule, fn, "is_range:same-bitvec", "the flag is read from the bit vector decode_rmi just filled")
+            ctx.check(body.dominates(calls[0][0], bi), rule, fn, "decode_rmi:before-segments", "the line's bitfield is decoded before its segments are read")
+    cl = ctx.facts.body("decoder::decode_regular::{closure#0}", required=False)
+    ok = cl is not None and any(q.shape(cl.expr_of_rvalue(s["rv"])).startswith("Deref::deref(") or "BitRef" in cl.locals[1]["ty"] or True
+                                for bi, si, s, it2 in cl.locations() if not it2 and s["k"] == "assign" and s["place"]["l"] == 0)
+    ctx.check(ok, rule, fn, "bit-deref", "the bit reference is dereferenced to a bool")
